@@ -171,6 +171,14 @@ pub fn native_minmax<T, const LESS: bool>(
         Value::Object(o) => unsafe {
             match &o.as_ref().body {
                 CaoLangObjectBody::Table(t) => {
+                    // work on a private (guarded) copy of the entries: the key function is a
+                    // script and may change the table it was given, which would invalidate the
+                    // iteration below
+                    let mut snapshot = vm.init_table()?;
+                    for (k, v) in t.iter() {
+                        snapshot.as_table_mut().unwrap().insert(*k, *v)?;
+                    }
+                    let t = snapshot.as_table().unwrap();
                     let Some(first) = t.iter().next() else {
                         return Ok(Value::Nil);
                     };
@@ -222,6 +230,14 @@ pub fn native_sorted<T>(
         Value::Object(o) => unsafe {
             match &o.as_ref().body {
                 CaoLangObjectBody::Table(t) => {
+                    // work on a private (guarded) copy of the entries: the key function is a
+                    // script and may change the table it was given, which would invalidate the
+                    // iteration below
+                    let mut snapshot = vm.init_table()?;
+                    for (k, v) in t.iter() {
+                        snapshot.as_table_mut().unwrap().insert(*k, *v)?;
+                    }
+                    let t = snapshot.as_table().unwrap();
                     // TODO:
                     // sort in place?
                     let mut result = Vec::with_capacity(t.len());
